@@ -31,7 +31,7 @@ class C01(HistoryCheck):
     PROP = "C01"
     LEVEL = "fault_enumeration"
     RUNS = {"quick": 1200, "thorough": 12000}
-    PROFILE = {"allow_frozen": False, "allow_class_dnc": False, "allow_lookup_preparer": True}
+    PROFILE = {"allow_frozen": False, "allow_class_dnc": False, "allow_parent_class_dnc": True, "allow_lookup_preparer": True}
     OPGEN = {"p_bad": 0.25, "p_inplace": 0.25, "p_returner": 0.35}
     N_OPS = {"quick": (6, 16), "thorough": (8, 25)}
     P_PROBE = {"quick": 0.1, "thorough": 0.25}
